@@ -44,11 +44,11 @@ var propPlans = []propPlan{
 		NotDecided: "which (M,P) are accepted or rejected (unsigned arithmetic on runtime counters); what the unblocked response contains; telling an absent _HLS_part from _HLS_part=0.",
 		LevelText:  "Wait/wake discipline over all schedules, _HLS_* filtering, delta-update shape, roll-over reaching the open segment, rejection bounds that track the live window, no response body written under a muxer lock."},
 	{ID: "C07", Title: "Close unblocks every request and releases storage",
-		Rules:      []string{"CG0", "L1", "L2", "L3", "L4", "L6", "P3", "P4", "P6", "L9", "V4i", "L2b", "P4b", "P6b", "V4l", "L3h", "L5d", "L2c", "G13b", "T7t", "T7v", "L2d"},
+		Rules:      []string{"CG0", "L1", "L2", "L3", "L4", "L6", "P3", "P4", "P6", "L9", "V4i", "L2b", "P4b", "P6b", "V4l", "L3h", "L5d", "L2c", "G13b", "T7t", "T7v", "L2d", "P10"},
 		NotDecided: "'promptly' as a time bound; disk I/O latency under the lock.",
 		LevelText:  "Every waiter leaves on a closed flag that Close sets under the lock before broadcasting; no lock leaks on any path; every owned file is released. Argued sufficient (DESIGN 4, C07) for the sub-statement 'every blocked request completes non-200 after Close, no lock left held, every created file removed' under every interleaving, given monitor semantics."},
 	{ID: "C08", Title: "One writer + concurrent readers",
-		Rules:      []string{"CG0", "L1", "L3", "L4", "L5", "L5b", "L6", "L8", "L9", "P1", "P2", "V4b", "V4d", "T7f", "V4g", "T7m", "P3d", "V4i", "P7", "V4k", "P3f", "V4j", "V4l", "L5c", "P8b", "P9", "K20", "P4", "V4n", "L2d", "G19"},
+		Rules:      []string{"CG0", "L1", "L3", "L4", "L5", "L5b", "L6", "L8", "L9", "P1", "P2", "V4b", "V4d", "T7f", "V4g", "T7m", "P3d", "V4i", "P7", "V4k", "P3f", "V4j", "V4l", "L5c", "P8b", "P9", "K20", "P4", "V4n", "L2d", "G19", "P10"},
 		NotDecided: "absence of every panic (nil dereferences are not modelled); single-playlist invariants of a snapshot; monotonic views.",
 		LevelText:  "Every location shared between writer and request goroutines is co-locked or frozen before publication (lockset + ownership analysis over all contexts); no zero divisor in handler code."},
 	{ID: "C09", Title: "A Client reading a Muxer",
